@@ -80,6 +80,36 @@ CLAIMS = {
              "implementation's result (one target variant per source variant, identity map, injective datum correspondence, equal names/type info).",
         note=BASE_NOTE + "PARTIAL theorem; the deciding part is the differential + oracle.",
         ref="DESIGN.md section 4 C20"),
+    "C08": dict(
+        engine="E4 vecdrv",
+        technique="Coq refinement proof (two-index in-place loop = left fold, any converter, any length) + exhaustive scripted differential with ledger and allocator log",
+        text="Theorems C08_refines (the model of try_convert_vec_in_place - one buffer, two indices, faults for reading a consumed slot or "
+             "overwriting a live one - equals the plain fold `spec` for EVERY vector length and EVERY converter, a Section variable with its "
+             "own state that may modify the previous output), C08_success (one converter call per input, in order, nothing dropped or released), "
+             "C08_no_fault, C08_length; C08_current ties the five code facts the proof needs to convert.rs through the translator. "
+             "Same allocation/capacity is the allocator's: observed by E4 (pointer, capacity, no release) on every successful case. "
+             "E4 runs every script that matters up to the tier's length on 4 element pairs in dev and release against the model.",
+        note=BASE_NOTE + "Full for the index logic; 'same allocation' partial (execution). catch_unwind/unwinding are trusted.",
+        ref="DESIGN.md section 4 C08"),
+    "C09": dict(
+        engine="E4 vecdrv",
+        technique="Coq proof over the fold specification (failure decomposition) + exhaustive failure-position enumeration with ledger/allocator oracles",
+        text="Theorem C09: a failing run decomposes as pre ++ t :: r with the run over pre successful, and after the failing call the "
+             "function does exactly: drop every kept output once, drop every remaining input once, release the buffer, hand back the very "
+             "error / panic payload; nothing else, no further call. C09_current requires convert.rs (translator) to release the buffer after "
+             "the clean-up in both arms and to resume_unwind the payload; C09_refuted_unfixed / _late_increment keep the witnesses. "
+             "E4 enumerates every failure position x 4 failure kinds x every preceding pattern, with ledger balance, allocator log and payload type.",
+        note=BASE_NOTE + "The unwinder and the allocator are exercised, not modelled.",
+        ref="DESIGN.md section 4 C09"),
+    "C10": dict(
+        engine="E4 vecdrv",
+        technique="Coq proof (guard before ownership) + source translator + type matrix executed in a separate process",
+        text="Theorem C10 / C10_converse: size or alignment mismatch <=> Refused, with no converter call and the input dropped once per element "
+             "then its buffer, for every length. C10_current: both assertions are present and precede ManuallyDrop::new(input) in the source. "
+             "E4 runs 8 mismatching pairs (size up/down, alignment up/down, to/from zero-size, both) x lengths 0,1,2,3,7 with an all-abandon "
+             "converter in dev and release and requires a refusal; the ledger must show each input dropped exactly once.",
+        note=BASE_NOTE,
+        ref="DESIGN.md section 4 C10"),
 }
 
 
@@ -114,6 +144,12 @@ def main():
             {"name": "E1 bdiff", "path": "harness/src/bin/bdiff.rs + coq/Model/{Layout,Builder,Observe}.v + coq/extract",
              "serves_properties": ["C01", "C02", "C03", "C12", "C13", "C18", "C20"],
              "kind_free_text": "differential execution of the real builder against the Gallina model (vm_compute inside Coq and extracted OCaml), plus property oracles on the implementation output"},
+            {"name": "E4 vecdrv", "path": "harness/src/bin/vecdrv.rs + coq/Model/{VecConv,VecScript}.v + vlib/e4.py",
+             "serves_properties": ["C08", "C09", "C10"],
+             "kind_free_text": "scripted converters on ledger-tracked element types, global-allocator watch, dev+release, against the Gallina model"},
+            {"name": "T1/T2 srcscan", "path": "vlib/srcscan.py -> coq/Current/Runtime.v",
+             "serves_properties": ["C08", "C09", "C10"],
+             "kind_free_text": "translator of token-level source facts into model parameters, regenerated on every run"},
         ],
         "checks": checks,
         "not_applicable": na,
